@@ -7,7 +7,7 @@ import json
 import random
 import sys
 
-from . import common, export, gen_graphs, progs, stages
+from . import common, export, gen_graphs, par, pipe, progs, stages
 
 
 def digest(obj):
@@ -35,6 +35,25 @@ def main():
         except Exception as e:
             d = ["EXC " + type(e).__name__]
         out.append(("graph", repr(succ), digest(d)))
+    # the same graphs against the pipeline MODEL (a pure function of the input): under this hash
+    # seed too the implementation's whole state after every stage must be what the model computes
+    import subprocess
+    texts, bad = [], []
+    for succ in graphs:
+        t, meta = pipe.export_item(("c12", succ, "basic"))
+        if t is None:
+            bad.append(repr(succ))
+        else:
+            texts.append((succ, t))
+    res = subprocess.run([par.VCHK], input="".join(t for _, t in texts), capture_output=True, text=True)
+    lines = res.stdout.splitlines()
+    if res.returncode != 0 or len(lines) != len(texts):
+        bad.append("vchk failed: " + res.stderr[-200:])
+    else:
+        for (succ, _), ln in zip(texts, lines):
+            if ln.split()[1:] != ["1", "1", "1", "1"]:
+                bad.append(repr(succ))
+    out.append(("pipeline-model", "%d graphs" % len(graphs), "agree" if not bad else "DIFFER " + ";".join(bad[:3])))
     for i in range(120 if tier == "quick" else 1500):
         src = progs.ProgGen(rng, progs.CLEAN).func(3)
         try:
